@@ -77,6 +77,7 @@ type Op struct {
 	Remain  uint64   `json:"remain,omitempty"`
 	Old     uint64   `json:"old,omitempty"`
 	Label   uint64   `json:"label,omitempty"`
+	NewSV   []uint64 `json:"-"` // target supervoxel array (for overwrite)
 }
 
 // BodyObs is the expected observation of one body.
@@ -101,6 +102,8 @@ type Obs struct {
 	Body    []uint64  `json:"body"`
 	Nxt     uint64    `json:"nxt"`
 	Bodies  []BodyObs `json:"bodies"`
+	Lvl1    []uint64  `json:"lvl1"`
+	Lvl2    []uint64  `json:"lvl2"`
 	SVSizes []struct {
 		SV   uint64 `json:"sv"`
 		Size uint64 `json:"size"`
@@ -307,6 +310,30 @@ func (in *Inst) Apply(uuid string, op Op, lab *Labels) (int, []string, error) {
 		lab.Bind(op.Split, o.SplitSupervoxel)
 		lab.Bind(op.Remain, o.RemainSupervoxel)
 		return 200, probs, nil
+	case "overwrite":
+		// re-post (mutate) every block that holds one of the regions with the new label
+		x := in.MaxSeen + 3
+		lab.Bind(op.Label, x)
+		if op.NewSV == nil {
+			return 0, nil, fmt.Errorf("overwrite needs the target supervoxel array")
+		}
+		reg := map[int]bool{}
+		for _, r := range op.Regions {
+			reg[r] = true
+		}
+		var blocks []int
+		for b := range in.G.Blocks {
+			for r := range reg {
+				if in.G.NVox[r-1][b] > 0 {
+					blocks = append(blocks, b+1)
+					break
+				}
+			}
+		}
+		if err := in.Ingest(uuid, lab.reals(op.NewSV), blocks, true); err != nil {
+			return 400, nil, nil
+		}
+		return 200, nil, nil
 	case "renumber":
 		// the new label is chosen by the client: above everything seen so far
 		newReal := in.MaxSeen + 3
@@ -675,4 +702,48 @@ func (in *Inst) MaxLabel(uuid string, want uint64, wait time.Duration) (uint64, 
 		}
 		time.Sleep(2 * time.Millisecond)
 	}
+}
+
+// CompareLevels reads the stored lower-resolution levels and compares every voxel with the
+// documented vote evaluated by the specification (C14).
+func (in *Inst) CompareLevels(uuid string, want Obs, lab *Labels, l1, l2 *LevelTab) ([]string, error) {
+	var d []string
+	bodyOf := map[uint64]uint64{0: 0}
+	for _, b := range want.Bodies {
+		for _, s := range b.SVs {
+			bodyOf[s] = b.Label
+		}
+	}
+	for k, lv := range []*LevelTab{l1, l2} {
+		exp := want.Lvl1
+		if k == 1 {
+			exp = want.Lvl2
+		}
+		for _, sup := range []bool{true, false} {
+			q := fmt.Sprintf("?scale=%d", k+1)
+			if sup {
+				q += "&supervoxels=true"
+			}
+			url := fmt.Sprintf("/api/node/%s/%s/raw/0_1_2/%d_%d_%d/%d_%d_%d%s", uuid, in.Name, lv.Size[0], lv.Size[1], lv.Size[2], lv.Min[0], lv.Min[1], lv.Min[2], q)
+			r, err := in.http("GET", url, nil)
+			if err != nil {
+				return nil, err
+			}
+			if r.Status != 200 {
+				d = append(d, fmt.Sprintf("GET raw%s: status %d %.200s", q, r.Status, r.Bytes()))
+				continue
+			}
+			bad := lv.CheckLevel(r.Bytes(), func(c int) uint64 {
+				l := exp[c-1]
+				if !sup {
+					l = bodyOf[l]
+				}
+				return lab.Real(l)
+			})
+			if bad != "" {
+				d = append(d, fmt.Sprintf("level %d (%s): %s", k+1, map[bool]string{true: "supervoxels", false: "mapped"}[sup], bad))
+			}
+		}
+	}
+	return d, nil
 }
